@@ -250,6 +250,10 @@ def spell_reg(rng, n):
 
 def spell_int(rng, v, paren_ok=False):
     k = rng.randrange(5 if paren_ok else 4)
+    if paren_ok and 33 <= v <= 126 and chr(v) not in "'\\" and rng.random() < 0.3:
+        return "'%s'" % chr(v)              # a character literal is an integer expression of its own
+    if paren_ok and rng.random() < 0.1:
+        return rng.choice(['+%d' % v if v >= 0 else str(v), ('0o%o' % v) if v >= 0 else '-0o%o' % -v, ('%d' % v if abs(v) < 1000 else ('%d_%03d' % (abs(v) // 1000, abs(v) % 1000) if v > 0 else '-%d_%03d' % (abs(v) // 1000, abs(v) % 1000)))])
     if k == 0:
         return str(v)
     if k == 4:
